@@ -20,6 +20,13 @@ class StorageError(Exception):
     """Raised by the fault injector; not an OAuth2Error."""
 
 
+# a real store fails with exceptions of many families (a corrupted record: ValueError / KeyError / TypeError; the network:
+# OSError / TimeoutError; ...).  Each class below is ALSO a StorageError, so that the harness recognises it when it surfaces.
+FAULT_CLASSES = [StorageError] + [type("Storage" + b.__name__, (StorageError, b), {}) for b in
+                                  (ValueError, TypeError, KeyError, AttributeError, OSError, TimeoutError, OverflowError, LookupError, RuntimeError,
+                                   UnicodeDecodeError if False else ArithmeticError, EOFError)]
+
+
 class HReq:
     """A framework-neutral HTTP request."""
 
@@ -116,6 +123,7 @@ class Store:
         self.users = {}
         self.trace = []          # (op, detail) in call order
         self.fault_at = None     # 1-based index of the callback that fails
+        self.fault_class = StorageError
         self.calls = 0
         self.counter = 0
 
@@ -124,7 +132,7 @@ class Store:
         self.calls += 1
         if self.fault_at is not None and self.calls == self.fault_at:
             self.trace.append((name, "FAULT"))
-            raise StorageError("injected fault at callback %d (%s)" % (self.calls, name))
+            raise self.fault_class("injected fault at callback %d (%s)" % (self.calls, name))
         self.trace.append((name, detail))
 
     def fresh(self, prefix):
